@@ -360,7 +360,11 @@ func (i *interpreter) native(fr *frame, v value, strict bool) interface{} {
 		}
 		// Error() / String() methods
 		for _, mname := range []string{"Error", "String"} {
-			if m := i.prog.LookupMethod(x.t, nil, mname); m != nil && m.Signature.Params().Len() == 0 && m.Signature.Results().Len() == 1 {
+			sel := i.prog.MethodSets.MethodSet(x.t).Lookup(nil, mname)
+			if sel == nil {
+				continue
+			}
+			if m := i.prog.MethodValue(sel); m != nil && m.Signature.Params().Len() == 0 && m.Signature.Results().Len() == 1 {
 				if b, ok := m.Signature.Results().At(0).Type().Underlying().(*types.Basic); ok && b.Kind() == types.String {
 					if p, isPtr := x.v.(*value); isPtr && p == nil {
 						return "<nil>"
